@@ -196,6 +196,35 @@ def run(R):
     else:
         R.violation("C05.star", "create_joined_column_mapping", "`*` over a join does not list the queried table's columns followed by the joined "
                                                                   "table's columns in definition order (%s)" % why, [cm.loc()])
+    # ---- every pair gets its own column mapping: the map the partner's columns are inserted into is created inside the partner loop
+    R.rule("C05.fresh", "the column mapping of a pair is built from the queried row anew for every partner: no map that already holds a "
+                        "previous partner's columns is extended (the clash guard `!contains_key(name)` would keep the first partner's value)")
+    ejw = PR.view(P, ej, keep=r"JoinedTableData::get_joined_row$|ExecutionEngine::create_columns_mapping$|HashMapColumnProvider::")
+    pn = [c for c in ejw.calls if short(c.name).endswith("slice::iter::Iter<'a, T> as core::iter::traits::iterator::Iterator>::next")
+          and "sqlgrep::data_model::Row" in " ".join(c.func.get("res_targs") or c.targs)]
+    inserts = [c for c in ejw.calls if re.search(r"hash::map::HashMap::(insert|entry)$", short(c.name)) and
+               "sqlgrep::model::Value" in " ".join(c.func.get("res_targs") or c.targs)]
+    if pn and inserts:
+        lp_ = PR.loop_of(ejw, pn[0].bb)
+        bodyp = lp_[1] if lp_ else set()
+        stale = []
+        for c in inserts:
+            if c.bb not in bodyp:
+                continue
+            srcs = [o.call for o in F.origins(ejw, c.args[0], depth=10) if o.kind == "call" and
+                    re.search(r"create_columns_mapping$|HashMap::(new|with_capacity|default)$|hash::map::HashMap<.*Default>::default$|Clone>::clone$", short(o.call.name))]
+            if srcs and not any(sc.bb in bodyp for sc in srcs):
+                stale.append((c, srcs[0]))
+        if stale:
+            c, sc = stale[0]
+            R.violation("C05.fresh", "execute_join|mapping-shared-across-partners",
+                        "the map the joined columns are inserted into is created once per input row (%s at line %d), outside the loop over the "
+                        "partner rows: from the second partner on, a joined column's plain name still holds the previous partner's value"
+                        % (short(sc.name).split("::")[-1], sc.line), [c.loc(), sc.loc()])
+        else:
+            R.ok("C05.fresh", "execute_join", "the pair's mapping is created inside the partner loop (%d insert site(s))" % len(inserts), pn[0].loc())
+    else:
+        R.note("C05.fresh: partner loop / mapping inserts not found in execute_join (view); not decided")
     # ---- outer row (on execute_join with its local helpers inlined; guards read as path facts, so `a && b`, a predicate
     #      function or early returns are all the same to the rule)
     ejv = PR.view(P, ej, keep=r"JoinedTableData::get_joined_row$|::create_joined_column_mapping$|::extend_option_result_row$")
